@@ -197,9 +197,10 @@ def assert_constraints(weights,
         # Norm can be either 0.0 or 1.0, because if all weights are close to 0.0
         # we can't scale them to get norm 1.0.
         tf.Assert(
-            tf.logical_or(
-                tf.abs(norm - 1.0) < eps,
-                tf.abs(norm) < _NORMALIZATION_EPS),
+            tf.reduce_all(
+                tf.logical_or(
+                    tf.abs(norm - 1.0) < eps,
+                    tf.abs(norm) < _NORMALIZATION_EPS)),
             data=[
                 "Normalization order violation", "Norm:", norm, "Epsilon:", eps,
                 "Weights:", weights
